@@ -110,6 +110,11 @@ type symCtx struct {
 
 	valueCap int
 
+	// solver diff: a seeded sample of assertion queries as stand-alone scripts
+	diffSeed int64
+	diffWant int
+	diffs    []DiffQuery
+
 	// statistics
 	Paths       int64
 	Decisions   int64
@@ -349,6 +354,9 @@ func (s *symCtx) assert(c *term, prop, label string) {
 		return
 	}
 	bad, m := s.slv.checkWithModel(s.tt.not(c), s.vars)
+	if s.diffWant > 0 {
+		s.sampleDiff(c, bad)
+	}
 	if bad {
 		s.addViolation(prop, label, m)
 		s.assume(c)
@@ -378,3 +386,46 @@ func (s *symCtx) renderNotes(m map[string]uint64) []string {
 	}
 	return out
 }
+
+// DiffQuery is one assertion query written out for a second solver.
+type DiffQuery struct {
+	Script string `json:"script"`
+	Expect string `json:"expect"`
+	h      uint64
+}
+
+func (s *symCtx) sampleDiff(c *term, bad bool) {
+	h := hashEvents(s.diffSeed, fmt.Sprintf("%s|%d", eventsString(s.events[:s.pos]), c.id))
+	if len(s.diffs) >= s.diffWant && h >= s.diffs[len(s.diffs)-1].h {
+		return
+	}
+	var b strings.Builder
+	var vs []*term
+	seen := map[int]bool{}
+	for _, l := range s.lits {
+		l.vars(seen, &vs)
+	}
+	c.vars(seen, &vs)
+	for _, v := range vs {
+		fmt.Fprintf(&b, "(declare-const %s %s)\n", quoteSym(v.name), sortName(v.bits))
+	}
+	for _, l := range s.lits {
+		fmt.Fprintf(&b, "(assert %s)\n", quoteSyms(l.full()))
+	}
+	fmt.Fprintf(&b, "(assert (not %s))\n(check-sat)\n", quoteSyms(c.full()))
+	exp := "unsat"
+	if bad {
+		exp = "sat"
+	}
+	s.diffs = append(s.diffs, DiffQuery{Script: b.String(), Expect: exp, h: h})
+	for k := len(s.diffs) - 1; k > 0 && s.diffs[k].h < s.diffs[k-1].h; k-- {
+		s.diffs[k], s.diffs[k-1] = s.diffs[k-1], s.diffs[k]
+	}
+	if len(s.diffs) > s.diffWant {
+		s.diffs = s.diffs[:s.diffWant]
+	}
+}
+
+// variable names contain '!' and '.', legal in SMT-LIB simple symbols
+func quoteSym(n string) string  { return n }
+func quoteSyms(t string) string { return t }
